@@ -118,6 +118,8 @@ pub open spec fn policy_failure(p: TrampolineRoutingPolicy) -> Seq<u8> {
       *final(w) == *old(w)
 //@ ensures#plain_forward_continues [C13]
       req.onion.short_channel_id is Some ==> (r is Some && continue_untouched(*req, r->0))
+//@ ensures#missing_forward_amount_is_answered_directly [C13]
+      req.onion.forward_msat is None ==> r is Some
 //@ end
 
 //@ fn htlc_manager::HtlcManager::handle_htlc#gate
@@ -172,6 +174,10 @@ pub open spec fn policy_failure(p: TrampolineRoutingPolicy) -> Seq<u8> {
 //@ ensures#the_listener_value_is_returned_unchanged [C02,C01,C06,C07]
 //    whatever the lifecycle sent to this call's listener is exactly the hook's answer
       final(g).via_listener ==> Some(r) == final(g).listener_value
+//@ ensures#not_a_wellformed_trampoline_request_is_never_held [C13]
+//    a plain forward, or a request without forward amount, is answered directly (never handed to
+//    a payment): only well-formed trampoline requests reach the table
+      (req.onion.short_channel_id is Some || req.onion.forward_msat is None) ==> !final(g).via_listener
 //@ ensures#direct_continue_is_untouched [C13]
       (r is Continue && !final(g).via_listener) ==> continue_untouched(*req, r)
 //@ closure 0
